@@ -431,6 +431,44 @@ func c04JSON(w *run.Worker, d dctx) {
 			c04Report(w, d, "json", p, v, "")
 		}
 	}
+	// the same text decoded twice, the first document changed in between (at the top and inside): every
+	// decode yields a document of its own
+	for _, t := range []string{`[1,2,3]`, `{"a":1,"b":[true,null,"x"]}`, `[[1,[2,[3]]]]`, `{"a":{"b":{"c":1}}}`} {
+		for mode := 0; mode < 3; mode++ {
+			if !w.Take() {
+				continue
+			}
+			var change *rt.Node
+			isList := t[0] == '['
+			switch {
+			case mode == 0 && isList:
+				change = rt.Assign("=", rt.Index("j", I(0)), S("changed"))
+			case mode == 0:
+				change = rt.Assign("=", rt.Index("j", S("a")), S("changed"))
+			case mode == 1 && isList && t[1] == '[':
+				change = rt.Assign("=", rt.Index("j", I(0), I(0)), S("changed"))
+			case mode == 1 && !isList && t == `{"a":{"b":{"c":1}}}`:
+				change = rt.Assign("=", rt.Index("j", S("a"), S("b")), S("changed"))
+			case mode == 1 && !isList:
+				change = rt.Assign("=", rt.Index("j", S("b"), I(0)), S("changed"))
+			case mode == 2 && !isList:
+				change = rt.Assign("=", rt.Index("j", S("new")), I(1))
+			default:
+				change = rt.Assign("=", rt.Index("j", I(-1)), rt.List(S("changed")))
+			}
+			stmts := []*rt.Node{rt.Assign("=", Id("j"), rt.Call("load_json", S(t))), change, rt.Assign("=", Id("j2"), rt.Call("load_json", S(t))), rt.Call("p", Id("j"), Id("j2")),
+				rt.ForIn("i", rt.List(I(1), I(2)), rt.Block(rt.Assign("=", Id("d"), rt.Call("load_json", S(t))), rt.Call("p", Id("d")), func() *rt.Node {
+					if isList {
+						return rt.Assign("=", rt.Index("d", I(0)), Id("i"))
+					}
+					return rt.Assign("=", rt.Index("d", S("a")), Id("i"))
+				}()))}
+			p := &Prog{Scripts: map[string][]*rt.Node{"s.p": stmts}, Main: "s.p", Point: PointSpec{Meas: "m"}}
+			w.Eval()
+			v := d.diff(p)
+			c04Report(w, d, "json-decoded-twice", p, v, "")
+		}
+	}
 	// collection literal -> add_key -> load_json round trip of the shapes
 	for _, sh := range c04Shapes() {
 		if !w.Take() {
@@ -526,6 +564,24 @@ func c04LenIn(w *run.Worker, d dctx) {
 		func() *rt.Node { return rt.List(I(1)) }, func() *rt.Node { return rt.Map(S("k"), I(1)) }, func() *rt.Node { return rt.Float(1.5) }, func() *rt.Node { return rt.Bool(true) }, func() *rt.Node { return S("本") },
 		func() *rt.Node { return I(2) }, func() *rt.Node { return rt.List() },
 	}
+	// long constant literals as the right operand (9, 17, 40 scalar elements; one holding a float, nil and a bool)
+	for _, n := range []int{9, 17, 40} {
+		n := n
+		vals = append(vals, func() *rt.Node {
+			var e []*rt.Node
+			for i := 0; i < n; i++ {
+				if i%2 == 0 {
+					e = append(e, I(int64(i)))
+				} else {
+					e = append(e, S(fmt.Sprintf("s%d", i)))
+				}
+			}
+			return rt.List(e...)
+		})
+	}
+	vals = append(vals, func() *rt.Node {
+		return rt.List(I(1), S("a"), rt.Nil(), rt.Float(1.5), rt.Bool(true), I(2), I(3), I(4), I(5), I(6), S("b"), S("é"))
+	})
 	for _, v := range vals {
 		if w.Take() {
 			stmts := []*rt.Node{rt.Assign("=", Id("v"), v()), rt.Call("p", rt.Call("len", Id("v")), rt.Call("len", v()))}
